@@ -186,6 +186,21 @@ def unpack_items(interp, fmt, items):
     return tuple(out)
 
 
+_CRC_STEP = z3.Function("crc_step", z3.BitVecSort(16), z3.BitVecSort(8), z3.BitVecSort(16))
+
+
+def crc_fold(value, byte_values):
+    """fold of the uninterpreted CRC step over byte values (int|SInt); also used by specs"""
+    if not byte_values:
+        return value
+    if not is_sym(value) and all(not is_sym(b) for b in byte_values):
+        return _binascii.crc_hqx(bytes(byte_values), value)
+    t = z3.Extract(15, 0, bv(value))
+    for b_ in byte_values:
+        t = _CRC_STEP(t, z3.Extract(7, 0, bv(b_)))
+    return mk_int(z3.ZeroExt(W - 16, t))
+
+
 class Models:
     def __init__(self):
         self.ctors = {}
@@ -1391,4 +1406,10 @@ class Models:
         self.callables[_copy.copy] = self.modattrs[("copy", "copy")]
 
     def crc16(self, interp, data, value):
-        raise Unsupported("symbolic crc_hqx")
+        """binascii.crc_hqx as a byte-wise fold of an uninterpreted step function (the fold structure is the trusted
+        axiom crc(a ++ b, v) = crc(b, crc(a, v)); the polynomial itself is CPython's)"""
+        if isinstance(data, LBytes):
+            data = self.lbytes_concretize(interp, data, 64)
+        if not isinstance(data, SBytes):
+            interp.ctx.raise_builtin(TypeError, "a bytes-like object is required")
+        return crc_fold(value, [byte_to_int(x) for x in data.items])
